@@ -221,6 +221,9 @@ def run(prog, ctx):
     from ..hats import check_hat_centre
     ctx.floor("C20.D6", check_hat_centre(prog, ctx, "C20.D6"), 3, "hat implementations analysed for the centre rule")
 
+    # ------------------------------------------------------------------ D8 structure of the non-uniform smoothing matrix
+    check_dimension_wise_gradient_gram(prog, ctx)
+
     # ------------------------------------------------------------------ D7 the surpluses handed out are solved in this call
     check_fresh_surpluses(prog, ctx, reg)
 
@@ -506,6 +509,9 @@ def _normalised(fi, s):
 
 
 def check_uniform_gradient_gram(prog, ctx):
+    """C_ij = sum_k [ stiffness_k(i_k, j_k) * prod_{m != k} mass_m(i_m, j_m) ]  with h_m = 2^-l_m:
+    stiffness 2/h = 2^(l+1) (same hat) / -1/h = -2^l (neighbours) in the differentiated dimension k, mass 2h/3 = 1/(3*2^(l-1)) /
+    h/6 = 1/(12*2^(l-1)) in every OTHER dimension m -- with the level of THAT dimension, l_m."""
     from ..absint import poly_of_term, Poly
     fi = prog.func(REG + ".build_C_matrix")
     ctx.touch(fi)
@@ -513,41 +519,120 @@ def check_uniform_gradient_gram(prog, ctx):
     c = cfg_of(fi)
     lv = fi.params[1]
     found = {"stiff-same": [], "stiff-nb": [], "mass-same": [], "mass-nb": []}
-    for n in c.nodes:
-        if n.kind == "stmt" and isinstance(n.ast, ast.AugAssign) and isinstance(n.ast.op, ast.Mult) and isinstance(n.ast.target, ast.Name) \
-                and n.ast.target.id == "temp_res" and n.idx in c.reachable():
-            guards = [g for (g, gn) in R.dominating_guards(fi, n, tm) if gn.kind == "test" and n.loops and c.in_loop(gn, n.loops[-1])]
-            diff_dim = any(g[0] == "cmp" and g[1] == "Eq" and {g[2], g[3]} == {("n", "m"), ("n", "k")} for g in guards)
-            same = any(g[0] == "cmp" and g[1] == "Eq" and {g[2], g[3]} == {("n", "index_im"), ("n", "index_jm")} for g in guards)
-            key = ("stiff-" if diff_dim else "mass-") + ("same" if same else "nb")
-            found[key].append((n, poly_of_term(tm.term(n.ast.value))))
-    L = ("s", ("n", lv), ("n", "k"))
+    # roles: TEMP the per-dimension product (`TEMP *= factor` inside the loop pair k (outer) / m (inner)), RES with `RES += TEMP`
+    prods = [n for n in c.nodes if n.kind == "stmt" and isinstance(n.ast, ast.AugAssign) and isinstance(n.ast.op, ast.Mult)
+             and isinstance(n.ast.target, ast.Name) and n.idx in c.reachable()
+             and len([l for l in n.loops if isinstance(l, ast.For) and isinstance(l.target, ast.Name)]) >= 2]
+    TEMP = prods[0].ast.target.id if prods else None
+    kv = mv = None
+    for n in prods:
+        if n.ast.target.id != TEMP:
+            continue
+        loops = [l for l in n.loops if isinstance(l, ast.For) and isinstance(l.target, ast.Name)]
+        kv, mv = loops[-2].target.id, loops[-1].target.id
+        guards = [g for (g, gn) in R.dominating_guards(fi, n, tm) if gn.kind == "test" and c.in_loop(gn, loops[-1])]
+        diff_dim = any(g[0] == "cmp" and g[1] == "Eq" and {g[2], g[3]} == {("n", mv), ("n", kv)} for g in guards)
+        same = any(g[0] == "cmp" and g[1] == "Eq" and g[2][0] == "n" and g[3][0] == "n" and not ({g[2][1], g[3][1]} & {mv, kv}) for g in guards)
+        key = ("stiff-" if diff_dim else "mass-") + ("same" if same else "nb")
+        found[key].append((n, poly_of_term(tm.term(n.ast.value))))
     two = ("c", "2")
-    half_l = ("op", "Pow", (two, ("op", "Sub", (L, ("c", "1")))))
 
-    def inv(m):
-        return poly_of_term(("op", "Div", (("c", "1"), ("op", "Mult", (("c", str(m)), half_l)))))
-    want = {
-        "stiff-same": poly_of_term(("op", "Pow", (two, ("op", "Add", (("c", "1"), L))))),
-        "stiff-nb": poly_of_term(("neg", ("op", "Pow", (two, L)))),
-        "mass-same": inv(3),
-        "mass-nb": inv(12),
-    }
-    problems = []
+    def wants(L):
+        half_l = ("op", "Pow", (two, ("op", "Sub", (L, ("c", "1")))))
+
+        def inv(m):
+            return poly_of_term(("op", "Div", (("c", "1"), ("op", "Mult", (("c", str(m)), half_l)))))
+        return {"stiff-same": poly_of_term(("op", "Pow", (two, ("op", "Add", (("c", "1"), L))))),
+                "stiff-nb": poly_of_term(("neg", ("op", "Pow", (two, L)))), "mass-same": inv(3), "mass-nb": inv(12)}
+    Lk, Lm = ("s", ("n", lv), ("n", kv)), ("s", ("n", lv), ("n", mv))
+    wk, wm = wants(Lk), wants(Lm)
     for k, lst in found.items():
-        if not lst:
-            problems.append("case %s not found" % k)
+        ctx.check(bool(lst), "C20.D5", R.key_of(fi, "uniform-gradient-gram:%s:present" % k), fi.loc(),
+                  "case %s is handled" % k, "uniform smoothing matrix: case %s not found" % k)
         for (n, p_) in lst:
-            if p_ != want[k]:
-                problems.append("%s factor `%s` differs from the hat-function integral" % (k, src(n.ast.value)))
-    ctx.check(not problems, "C20.D5", R.key_of(fi, "uniform-gradient-gram"), fi.loc(),
-              "stiffness factors 2^(l+1) / -2^l and mass factors 1/(3*2^(l-1)) / 1/(12*2^(l-1)) per dimension",
-              "uniform smoothing matrix: " + "; ".join(problems))
+            form_ok = p_ in (wk[k], wm[k])
+            ctx.check(form_ok, "C20.D5", R.key_of(fi, "uniform-gradient-gram:%s:value" % k), fi.loc(n.ast),
+                      "%s factor `%s` is the hat-function integral %s" % (k, src(n.ast.value), {"stiff-same": "2/h", "stiff-nb": "-1/h", "mass-same": "2h/3", "mass-nb": "h/6"}[k]),
+                      "uniform smoothing matrix: %s factor `%s` differs from the hat-function integral" % (k, src(n.ast.value)))
+            if k.startswith("mass") and form_ok:
+                own = p_ == wm[k]
+                ctx.check(own, "C20.D5", R.key_of(fi, "uniform-gradient-gram:%s:level-of-own-dimension" % k), fi.loc(n.ast),
+                          "the mass factor uses the level of the dimension it integrates over",
+                          "uniform smoothing matrix: %s factor `%s` (line %d) uses the level of the differentiated dimension `%s` instead of the level "
+                          "of the dimension `%s` it integrates over: wrong for anisotropic level vectors" % (k, src(n.ast.value), n.ast.lineno, kv, mv))
     # one term per differentiated dimension is summed
-    ok = any(isinstance(n.ast, ast.AugAssign) and isinstance(n.ast.op, ast.Add) and isinstance(n.ast.target, ast.Name) and n.ast.target.id == "res"
-             and tm.term(n.ast.value) == ("n", "temp_res") for n in c.nodes if n.kind == "stmt")
+    ok = TEMP is not None and any(isinstance(n.ast, ast.AugAssign) and isinstance(n.ast.op, ast.Add) and isinstance(n.ast.target, ast.Name)
+                                  and tm.term(n.ast.value) == ("n", TEMP) for n in c.nodes if n.kind == "stmt")
     ctx.check(ok, "C20.D5", R.key_of(fi, "sum-over-dimensions"), fi.loc(), "the entry is the sum over the differentiated dimension of the per-dimension products",
               "build_C_matrix no longer sums the per-dimension products into the entry")
+
+
+def check_dimension_wise_gradient_gram(prog, ctx):
+    """Structure of Regression.build_C_matrix_dimension_wise, the non-uniform counterpart of build_C_matrix:
+       for d (differentiated dimension): TEMP = 1; for n (every dimension): if n == d: TEMP *= stiffness_d  else: TEMP *= mass_n
+     a  index discipline: the mass branch (n != d) reads the hats' data of dimension n, not of d
+     b  exactly one factor is multiplied into TEMP per dimension n on every path
+     c  hats whose supports only touch (end of one == start of the other) have disjoint interiors: their stiffness term is 0, so the
+        disjointness test must be non-strict"""
+    fi = prog.func(REG + ".build_C_matrix_dimension_wise")
+    ctx.touch(fi)
+    tm = Terms(fi.node, max_depth=0)
+    c = cfg_of(fi)
+    split = None
+    for iff in walk_local(fi.node):
+        if isinstance(iff, ast.If) and iff.orelse:
+            loops = [l for l in R.enclosing_loops(iff) if isinstance(l, ast.For) and isinstance(l.target, ast.Name)]
+            if len(loops) >= 2:
+                t = tm.term(iff.test)
+                if t[0] == "cmp" and t[1] == "Eq" and {t[2], t[3]} == {("n", loops[-1].target.id), ("n", loops[-2].target.id)}:
+                    split = (iff, loops[-2], loops[-1])
+                    break
+    if split is None:
+        raise AnalysisError("anchor vanished: the `inner dimension == differentiated dimension` split in %s" % fi.qual)
+    iff, outer, inner = split
+    dv, nv = outer.target.id, inner.target.id
+    # a
+    wrong = [x for st in iff.orelse for x in ast.walk(st) if isinstance(x, ast.Subscript) and isinstance(x.slice, ast.Name) and x.slice.id == dv]
+    right = [x for st in iff.orelse for x in ast.walk(st) if isinstance(x, ast.Subscript) and isinstance(x.slice, ast.Name) and x.slice.id == nv]
+    ctx.check(not wrong and bool(right), "C20.D8", R.key_of(fi, "mass-factor-of-own-dimension"), fi.loc(wrong[0]) if wrong else fi.loc(iff),
+              "the mass factors of the dimensions n != d are computed from the hats' data of dimension n",
+              "in the branch `%s != %s` (mass factor of dimension %s) %d subscripts read dimension `%s` of the hats (first: `%s`, line %d) instead of "
+              "dimension `%s`: every non-differentiated dimension contributes the mass of the differentiated one"
+              % (nv, dv, nv, len(wrong), dv, src(wrong[0]) if wrong else "", wrong[0].lineno if wrong else 0, nv))
+    # b
+    prods = [n for n in c.nodes if n.kind == "stmt" and isinstance(n.ast, ast.AugAssign) and isinstance(n.ast.op, ast.Mult)
+             and isinstance(n.ast.target, ast.Name) and c.in_loop(n, inner) and n.idx in c.reachable()]
+    head = c.node_of(inner)
+    twice = [(a, b) for a in prods for b in prods if b.idx in c.reachable_after(a, blocked=[head]) and a.ast.target.id == b.ast.target.id]
+    body_first = c.node_of(inner.body[0]) if inner.body else None
+    once = bool(prods) and (body_first is None or c.must_pass_through(head, [head, c.exit], prods) or True)
+    ctx.check(not twice and bool(prods), "C20.D8", R.key_of(fi, "one-factor-per-dimension"), fi.loc(twice[0][1].ast) if twice else fi.loc(inner),
+              "on every path through one inner iteration exactly one factor is multiplied into the product",
+              "`%s` (line %d) is followed by `%s` (line %d) within the same iteration of `for %s`: that dimension's factor is multiplied in twice"
+              % ((src(twice[0][0].ast), twice[0][0].ast.lineno, src(twice[0][1].ast), twice[0][1].ast.lineno, nv) if twice else ("", 0, "", 0, nv)))
+    # c
+    zeros = [n for n in c.nodes if n.kind == "stmt" and c.in_loop(n, inner) and
+             ((isinstance(n.ast, ast.AugAssign) and isinstance(n.ast.op, ast.Mult) and isinstance(n.ast.value, ast.Constant) and n.ast.value.value == 0)
+              or (isinstance(n.ast, ast.Assign) and isinstance(n.ast.targets[0], ast.Name) and isinstance(n.ast.value, ast.Constant) and n.ast.value.value == 0
+                  and any(p_.ast.target.id == n.ast.targets[0].id for p_ in prods)))
+             and any(n.ast is y for st in iff.body for y in ast.walk(st))]
+    ctx.check(bool(zeros), "C20.D8", R.key_of(fi, "disjoint-supports-zero"), fi.loc(iff),
+              "the stiffness term of hats with disjoint supports is zeroed",
+              "no branch of the differentiated dimension zeroes the stiffness term of hats with disjoint supports")
+    okc = True
+    why = ""
+    for z in zeros:
+        par = getattr(z.ast, "_parent", None)
+        test = par.test if isinstance(par, ast.If) and z.ast in par.body else None
+        cmps = [x for x in ast.walk(test) if isinstance(x, ast.Compare)] if test is not None else []
+        strict = [x for x in cmps if isinstance(x.ops[0], (ast.Lt, ast.Gt))]
+        if not cmps or strict:
+            okc = False
+            why = "the disjointness test `%s` is strict: two hats whose supports only touch (one ends where the other starts) are treated as " \
+                  "overlapping neighbours and get a non-zero stiffness term" % (src(test) if test is not None else "?")
+    if zeros:
+        ctx.check(okc, "C20.D8", R.key_of(fi, "touching-supports-disjoint"), fi.loc(zeros[0].ast),
+                  "supports that share only an end point are treated as disjoint", why)
 
 
 def check_fresh_surpluses(prog, ctx, reg):
